@@ -105,8 +105,8 @@ TIERS = {
                          ("hexgroups", 9, 0, 8000)],
                   sim=(40, 31), sim_keep=40, nrand=12, shards=6, batch=1500, drive_timeout=900),
     "thorough": dict(letter="T", mc=("NNSSyntaxMC.tla", "NNSSyntax_thorough.cfg"), mc_timeout=3000,
-                     enums=[("namechars", 6, 5, 250000), ("addrchars", 6, 5, 150000), ("labels", 4, None, 0), ("octets", 5, None, 0),
-                            ("hexgroups", 9, 0, 400000)],
+                     enums=[("namechars", 6, 5, 150000), ("addrchars", 6, 5, 100000), ("labels", 4, None, 0), ("octets", 5, None, 0),
+                            ("hexgroups", 9, 0, 250000)],
                      sim=(1500, 31), sim_keep=1500, nrand=400, shards=14, batch=4000, drive_timeout=3000),
 }
 
@@ -128,15 +128,10 @@ RULE = ("one evaluation = one string offered to the real NNS contract through on
         "distinct (method, record type, outcome, refusing-guard class, reference verdict class, length class, mode) tuples")
 
 
-def scenario_of_factory(trace_all):
+def scenario_of_factory(trace_all, resets):
     by = collections.defaultdict(list)
-    resets = {}
     for r in trace_all:
-        tid = str(r["t"])
-        if r["act"] == "reset":
-            resets[tid] = r
-        else:
-            by[tid].append(r)
+        by[str(r["t"])].append(r)
 
     def scenario_of(tid):
         tid = str(tid)
@@ -144,7 +139,7 @@ def scenario_of_factory(trace_all):
         rst = resets.get(tid.split(".")[0], {})
         return dict(n=rst.get("n", 1), mode=rst.get("mode", "tx"), src=rst.get("src", "replay"),
                     steps=[{k: r[k] for k in STEP_KEYS} for r in rs])
-    return scenario_of, by, resets
+    return scenario_of, by
 
 
 def chars(s):
@@ -235,35 +230,72 @@ def run(pid, tier, seed, replay=None):
         acts.update(s.get("acts", {}))
     V.log("S3: %d invocations executed on the real code (%.0fs)" % (sum(s["lines"] for s in stats), dt))
 
-    def mon(i):
-        p = os.path.join(V.scratch(), "trace%d.ndjson" % i)
-        tr = V.read_trace(p)
-        if not tr:
-            return [], tr
-        fl, done, _ = V.tlc_monitor("NNSSyntaxTrace.tla", "NNSSyntaxTrace.cfg", p, constants={"Dev": dev_text(dev)},
+    # ---- S4: every part file is judged by its own monitor run (bounded heap, at most 6 at a time) and
+    # then streamed once; only the lines of flagged traces are kept in memory
+    import glob
+    parts = []
+    for i in range(nsh):
+        base = os.path.join(V.scratch(), "trace%d.ndjson" % i)
+        parts += [base] + sorted(glob.glob(base + ".*"), key=lambda x: int(x.rsplit(".", 1)[1]))
+    parts = [x for x in parts if os.path.exists(x) and os.path.getsize(x) > 0]
+
+    def light(r):
+        return {k: v for k, v in r.items() if k not in ("obs", "fault")}
+
+    def judge_part(path):
+        fl, done, _ = V.tlc_monitor("NNSSyntaxTrace.tla", "NNSSyntaxTrace.cfg", path, constants={"Dev": dev_text(dev)},
                                     timeout=cfg.get("monitor_timeout", 2400))
-        if done != len(tr):
-            raise V.Inconclusive("S4: monitor consumed %s of %d lines of shard %d" % (done, len(tr), i))
-        return fl, tr
+        flagged = set(f["trace"] for f in fl)
+        n, keys, resets, keep, modes, first = 0, set(), {}, collections.defaultdict(list), collections.Counter(), []
+        with open(path) as f:
+            for ln, line in enumerate(f, 1):
+                if not line.strip():
+                    continue
+                r = json.loads(line)
+                n += 1
+                tid = str(r["t"])
+                if r["act"] == "reset":
+                    resets[tid] = light(r)
+                    continue
+                keys.add(nontrivial_key(r))
+                modes[r["mode"]] += 1
+                if tid in flagged:
+                    keep[tid].append((ln, light(r)))
+                elif len(first) < 60:
+                    first.append(light(r))
+        if done != n:
+            raise V.Inconclusive("S4: monitor consumed %s of %d lines of %s" % (done, n, os.path.basename(path)))
+        return dict(flags=fl, n=n, keys=keys, resets=resets, keep=keep, modes=modes, first=first)
     tm = time.time()
-    with cf.ThreadPoolExecutor(max_workers=min(nsh, 8)) as ex:
-        results = list(ex.map(mon, range(nsh)))
-    flags_all, trace_all = [], []
-    for fl, tr in results:
-        base = len(trace_all)
-        for f in fl:
-            f["line"] += base
-        flags_all += fl
-        trace_all += tr
-    V.log("S4: %d recorded invocations judged by the TLA+ monitor NNSSyntaxTrace, %d flags (%.0fs)" %
-          (len(trace_all), len(flags_all), time.time() - tm))
+    os.environ["JDK_JAVA_OPTIONS"] = "-Xmx3g"
+    with cf.ThreadPoolExecutor(max_workers=6) as ex:
+        results = list(ex.map(judge_part, parts))
+    os.environ.pop("JDK_JAVA_OPTIONS", None)
+    flags_all, trace_all, resets_all = [], [], {}
+    distinct, modes, n_lines, first = set(), collections.Counter(), 0, []
+    for res in results:
+        index = {}
+        for tid, lst in res["keep"].items():
+            for ln, r in lst:
+                trace_all.append(r)
+                index[ln] = len(trace_all)
+        for f in res["flags"]:
+            f["line"] = index[f["line"]]
+        flags_all += res["flags"]
+        resets_all.update(res["resets"])
+        distinct |= res["keys"]
+        modes.update(res["modes"])
+        n_lines += res["n"]
+        first += res["first"][:60 - len(first)] if len(first) < 60 else []
+    V.log("S4: %d recorded invocations judged by the TLA+ monitor NNSSyntaxTrace in %d parts, %d flags (%.0fs)" %
+          (n_lines, len(parts), len(flags_all), time.time() - tm))
     # vacuity guard: every method must have accepted and rejected strings
     if replay is None:
         for a in ("isAvailable", "register", "registerTLD", "addRecord", "setRecord"):
             if acts.get(a + "|HALT", 0) < 20 or acts.get(a + "|FAULT", 0) < 20:
                 raise V.Inconclusive("too few accepted/rejected strings for %s (%d/%d): the harness is not exercising the code" %
                                      (a, acts.get(a + "|HALT", 0), acts.get(a + "|FAULT", 0)))
-    scenario_of, by, resets = scenario_of_factory(trace_all)
+    scenario_of, by = scenario_of_factory(trace_all, resets_all)
     mine = [f for f in flags_all if f["prop"] == pid]
     # the enumerations produce many witnesses of the same deviation: print/save a few per (pred, act, tags)
     per = collections.defaultdict(list)
@@ -287,23 +319,21 @@ def run(pid, tier, seed, replay=None):
         r = trace_all[fs[0]["line"] - 1]
         print("C18 flagged: %-50s %6d invocations, e.g. %s(%s\"%s\") -> %s" %
               (k, len(fs), r["act"], ("typ %d, " % r["typ"]) if r["typ"] else "", chars(r["s"]), r["res"]))
-    distinct = set()
-    for r in trace_all:
-        if r["act"] != "reset":
-            distinct.add(nontrivial_key(r))
     samples = []
-    for tid in [t for t in by if "." not in t][:1] + [t for t in by if "." in t][:8]:
-        rs = by[tid]
-        samples.append(dict(trace=tid, steps=[dict(act=r["act"], typ=r["typ"], s=chars(r["s"]), pre=[chars(p) for p in r["pre"]],
-                                                   res=r["res"], ret=r["ret"], why=r["why"], mode=r["mode"]) for r in rs[:12]]))
+    by_first = collections.defaultdict(list)
+    for r in first:
+        by_first[str(r["t"])].append(r)
+    for tid in [x for x in by_first if "." not in x][:1] + [x for x in by_first if "." in x][:8]:
+        samples.append(dict(trace=tid, steps=[dict(act=r["act"], typ=r["typ"], s=chars(r["s"]), pre=[chars(x) for x in r["pre"]],
+                                                   res=r["res"], ret=r["ret"], why=r["why"], mode=r["mode"]) for r in by_first[tid][:12]]))
     cov = dict(states=sum(m["states"] for m in mcs) or 1, transitions=sum(m["transitions"] for m in mcs) or 1,
-               traces_validated_against_impl=len(by), evaluations=len(trace_all) - len(resets),
+               traces_validated_against_impl=modes.get("call", 0) + len(resets_all),
+               evaluations=n_lines - len(resets_all),
                distinct_nontrivial=len(distinct), rule=RULE, samples=samples, exhaustive=False, s1=mcs,
                actions=dict(acts), drift_steps=drift, known_findings_seen=sorted(known_seen),
                enumerated_strings=n_enum, predicted_disagreements=len(preds_all), tlc_walks=len([s for s in scs if s.get("mode") == "tx"]),
                random_scenarios=nrand, monitor_flags_total=len(mine), flag_classes=classes, dev=dev,
-               committee_sizes=sorted(set(r["n"] for r in trace_all if r["act"] == "reset")),
-               modes=dict(collections.Counter(r["mode"] for r in trace_all if r["act"] != "reset")))
+               committee_sizes=sorted(set(r["n"] for r in resets_all.values())), modes=dict(modes))
     if replay is None:
         V.write_evidence(pid, tier, seed, "model_checking", cov, time.time() - t0, len(violations), ASSUME)
     return 1 if violations else 0
